@@ -148,11 +148,16 @@ def tv(c, area, module, cfg, what, profile="release", shard=4000, per_run=False,
     return n, files
 
 
-def mc_poll(c):
+def mc_poll(c, emit=None):
     base = open(vlib.SPEC + "/mc/MC_Poll.cfg").read()
     live = open(vlib.SPEC + "/mc/MC_Poll_live.cfg").read()
     for fam in ("v3", "v5"):
-        c.tlc_mc("MC_Poll-" + fam, "MC_Poll", cfg_text=base.replace('Fam = "v3"', 'Fam = "%s"' % fam), workers=1)
+        cfg = base.replace('Fam = "v3"', 'Fam = "%s"' % fam)
+        if emit:
+            cfg = cfg.replace("EmitStreams = FALSE", "EmitStreams = TRUE")
+        out = c.tlc_mc("MC_Poll-" + fam, "MC_Poll", cfg_text=cfg, workers=1, want_output=True)
+        if emit:
+            c.vectors_from(out, emit)
         c.tlc_mc("MC_Poll-live-" + fam, "MC_Poll", cfg_text=live.replace('Fam = "v3"', 'Fam = "%s"' % fam), workers=8)
 
 
@@ -244,7 +249,13 @@ def plan_c03(c):
 
 
 def plan_c05(c):
-    mc_poll(c)
+    vec = c.work + "/poll-streams.ndjson"
+    mc_poll(c, emit=vec)
+    # GEN: the model's own stream set on the real decoder, every schedule of the short ones
+    gfiles, ginfo = c.record("vectors", name="gen-poll", shard=50000, extra=["--in", vec, "--mode", "poll"])
+    c.validate("Trace_Poll", gfiles, cfg="Trace_Poll_C05.cfg", what="C05 schedules of the model's stream set (spec-generated)",
+               procs=10, per_run=True)
+    c.extra["gen_streams"] = vlib.count_lines(vec)
     p, files = tv(c, "poll", "Trace_Poll", "Trace_Poll_C05.cfg", "C05 schedule independence / cancellation safety",
                   shard=50000, per_run=True)
     runs = 0
